@@ -25,6 +25,7 @@ def run_(ctx):
                      env={"VERIF_SEED": str(ctx.seed + 1000 * i)})
         rep.absorb(res)
     rep.absorb(ctx.vh(["hookiso"], timeout=300))
+    rep.absorb(ctx.vh(["sinkmix"], timeout=600))
     rep.exhaustive = True
     rep.rule = ("all histories of length 3 over {Refresh(A), Destroy, SetHooks(any subset of time/string/fields), "
                 "Log(lazy|plain entry, tag, enabled|disabled level)} plus %d simulated histories of length 7; per "
@@ -32,6 +33,9 @@ def run_(ctx):
                 "f-variants, Info..Fatal and Record otherwise) on the required side of the logger's level "
                 "threshold; hooks count invocations and record the context; records are inspected at recording "
                 "appenders (time, context string, context fields ahead of call fields) and on the console line. "
-                "Non-trivial = distinct histories." % len(rs.emitted))
+                "Mixed sinks: a sync / async logger whose references mix console, file, rolling-file and discard appenders "
+                "with two recording appenders in every order (96 configurations): each hook runs exactly once per event with "
+                "the caller's context, whichever appenders serve it, and the recording appenders behind the real ones still "
+                "see the complete record.  Non-trivial = distinct histories." % len(rs.emitted))
     rep.assumptions = ["TLC/SANY", "Go toolchain", "recording appender plugin", "hooks are process-global function variables"]
     return rep.finish()
